@@ -111,10 +111,14 @@ PROPS = {
                       'pop_if_equal,pop_if_le,refill,num_slots} and Slot::{new,set_input,set_output} are verified on their real bodies.',
         'level_note': 'Trusted: a contract for std BinaryHeap on a ghost bag (pop/peek return a maximum), Slot order = reverse '
                       'lexicographic (key, output) (tuple Ord from std), each user stream modelled by its abstract remainder rest() (the '
-                      'property premise: strictly increasing keys). The ops unit and the heap unit phrase the heap state in two '
-                      'vocabularies; their correspondence is argued. is_disjoint/is_subset/is_superset (loops over op.next()) not decided.',
+                      'property premise: strictly increasing keys). The ops unit sees the heap through contracts that are CONTRACT-OF-identical '
+                      'to the ones unit heap verifies. Fst::{op, is_disjoint, is_subset, is_superset} and OpBuilder::add are verified on their real '
+                      'bodies: the counting loops are related to the number of keys two sorted streams share / hold together (merge recursion), '
+                      'which equals the receiver\'s key count exactly when the subset / superset relation holds; premise: the stored key count is '
+                      'the number of keys (C09, proved of every built file in unit builder). OpBuilder::push (Box<dyn Streamer>) and '
+                      '`&Fst` as a stream source are assumed; the Set wrappers (through StreamZeroOutput) are not under contract.',
         'explanation': '',
-        'assumptions': ['is_disjoint / is_subset / is_superset corollaries: not decided'],
+        'assumptions': ['OpBuilder::push boxes a `dyn Streamer`: assumed to append a stream yielding the argument\'s items', 'Set::is_disjoint/is_subset/is_superset wrappers not under contract'],
     },
     'C12': {
         'units': ['registry', 'builder'],
